@@ -92,7 +92,9 @@ def reexports(sel: List[int]) -> bool:
     private_by_convention = name.startswith("_") or mod.startswith("_")
     labels = []
     if private_by_convention and not public_names and got:
-        coincidence = "import-of-a-look-alike-module-or-name"
+        qn = f"pkg.sub_a.{mod}.{name}"
+        suffix = any(f[0] == "q" and qn.endswith(f[1].format(M=im, N=iname)) for _w, f, im, iname in imports)
+        coincidence = "imported-qualified-name-is-a-string-suffix-of-the-declaration" if suffix else "no-string-relation-to-any-import"
         labels.append(f"private-declaration-became-public-without-reexport:{coincidence}")
     if any(not p.startswith("_") for p in public_names) and not got:
         labels.append("reexported-under-public-name-but-private")
